@@ -77,6 +77,16 @@ theorem C10_length_ok_iff (cfg : Cfg) (rows : List Row) (n : Int) (h : nDaysTota
   simp only [violated, hb, true_and]
   omega
 
+/-- **the span is counted in calendar days**: when the first and last complete rows are `k` whole days
+apart on the local wall clock — whatever clock changes lie between them — `n_days_total = k + 1`
+(before repair c5dd37f4 the instants were absolute, and a span with one clock change came out one short) -/
+theorem C10_calendar_span (rows : List Row) (a b : Row) (k : Int)
+    (ha : (rows.filter (·.complete)).head? = some a) (hb : (rows.filter (·.complete)).getLast? = some b)
+    (hk : b.t - a.t = k * 1440) : nDaysTotal rows = some (k + 1) := by
+  unfold nDaysTotal
+  simp only [ha, hb, hk]
+  rw [Int.mul_ediv_cancel k (by norm_num)]
+
 /-- instants increase -/
 def Increasing : List Row → Prop
   | a :: b :: rest => a.t ≤ b.t ∧ Increasing (b :: rest)
